@@ -975,6 +975,13 @@ where
             // that foca forgets the down member (`Config::remove_down_after`)
             if message == Message::TurnUndead {
                 self.handle_self_update(Incarnation::default(), State::Down, &mut runtime)?;
+
+                // If we couldn't switch to a fresh identity there's no point
+                // in replying: the sender already considers us down and
+                // would just bounce the same message back, forever
+                if self.connection_state == ConnectionState::Undead {
+                    return Ok(());
+                }
             }
 
             if self.config.notify_down_members {
